@@ -35,9 +35,21 @@ theorem C16.guards_are_documented_limits (mode : Mode) (n m off : Nat) (c : K) :
 
 /-- Constant padding with a non-zero constant is not linear: the adjoint direction refuses it
 (`pad_const must be 0 for 'adjoint' direction`), for all sizes. -/
-theorem C16.adjoint_needs_zero_padconst (n m off : Nat) (c : K) (hc : c ≠ 0) (y : Nat → K) :
+theorem C16.adjoint_needs_zero_padconst (n m off : Nat) (c : K) (hc : c ≠ 0) (y : Nat → K)
+    (hoff : m ≠ n → off + min m n ≤ max m n) :
     resize1d .constant .adjoint m n off c y = .error .padConstAdjoint := by
-  simp [resize1d, check, hc]
+  have : ¬ (m ≠ n ∧ off + min m n > max m n) := fun h => by have := hoff h.1; omega
+  unfold resize1d check
+  rw [if_neg this, if_pos ⟨rfl, rfl, hc⟩]
+
+/-- **Offsets outside `[0, |m - n|]` are refused** on a resized axis, in every mode and
+direction (there is no placement of the smaller array inside the larger one; before the range
+check was added to the source NumPy's broadcasting decided, e.g.
+`resize_array([1,2,3,4,5], (3,), offset=4)` returned `[5, 5, 5]`). -/
+theorem C16.offset_range_checked (mode : Mode) (dir : Dir) (n m off : Nat) (c : K)
+    (x : Nat → K) (hnm : n ≠ m) (hoff : max n m < off + min n m) :
+    resize1d mode dir n m off c x = .error .offset := by
+  simp [resize1d, check, hoff, hnm]
 
 /-- **Padding equals NumPy's.**  For every pad mode, every original length `n`, new length
 `m > n`, offset and array content for which the call is admissible, `resize_array` succeeds
@@ -51,37 +63,36 @@ theorem C16.pad_eq_nppad (mode : Mode) (n m off : Nat) (c : K) (x : Nat → K) (
   intro i hi
   exact core_fwd_grow mode n m off c x hnm h i hi
 
-/-- **The overlapping block is copied unchanged**, in every mode, for growing, shrinking and
-equal lengths and every offset the call accepts: extension puts `x` at `[off, off + n)`,
-restriction returns `x[off : off + m]`. -/
+/-- **The overlapping block is copied unchanged**, in every mode and for every offset the call
+accepts: extension puts `x` at `[off, off + n)`, restriction returns `x[off : off + m]`, and on
+an axis of unchanged length the result is `x` (the offset is ignored there). -/
 theorem C16.resize_intersection (mode : Mode) (n m off : Nat) (c : K) (x r : Nat → K)
     (hr : resize1d mode .forward n m off c x = .ok r) :
-    (n ≤ m → ∀ j < n, r (off + j) = x j) ∧ (m ≤ n → ∀ i < m, r i = x (off + i)) := by
+    (n < m → ∀ j < n, r (off + j) = x j) ∧ (m < n → ∀ i < m, r i = x (off + i)) ∧
+      (n = m → ∀ i < n, r i = x i) := by
   obtain ⟨hc, rfl⟩ := (ok_iff ..).1 hr
   have hadm := ((C16.guards_are_documented_limits mode n m off c).1).1 hc
-  constructor
-  · intro hnm j hj
-    rcases Nat.lt_or_eq_of_le hnm with hlt | rfl
-    · have hoff := admissible_fits hadm hlt
-      have hp := hadm.2 hlt
-      rw [core_fwd_grow mode n m off c x hlt hadm (off + j) (by omega)]
-      cases mode <;> simp only [PadOK] at hp <;> simp only [npPad]
-      · simp only [npConstant]; rw [if_pos (by omega), Nat.add_sub_cancel_left]
-      · simp only [npReflect]
-        rw [reflect_eq_src n off (off + j) (by omega) hp.1 (by omega)]
-        simp only [srcSymmetric]; split_ifs <;> first | omega | (congr 1 <;> omega)
-      · simp only [npWrap]
-        rw [wrap_eq_src n off (off + j) (by omega) hp.1 (by omega)]
-        simp only [srcPeriodic]; split_ifs <;> first | omega | (congr 1 <;> omega)
-      · simp only [npEdge]; split_ifs <;> first | omega | (congr 1 <;> omega)
-      · simp only [linExtrap]; split_ifs <;> first | omega | (congr 1 <;> omega)
-    · have : off = 0 := by have := hadm.1; omega
-      subst this
-      rw [core_fwd_crop mode n n 0 c x (le_refl _) (by omega) (0 + j) (by omega)]
-      congr 1; omega
+  refine ⟨?_, ?_, ?_⟩
+  · intro hlt j hj
+    have hoff := admissible_fits hadm hlt
+    have hp := hadm.2 hlt
+    rw [core_fwd_grow mode n m off c x hlt hadm (off + j) (by omega)]
+    cases mode <;> simp only [PadOK] at hp <;> simp only [npPad]
+    · simp only [npConstant]; rw [if_pos (by omega), Nat.add_sub_cancel_left]
+    · simp only [npReflect]
+      rw [reflect_eq_src n off (off + j) (by omega) hp.1 (by omega)]
+      simp only [srcSymmetric]; split_ifs <;> first | omega | (congr 1 <;> omega)
+    · simp only [npWrap]
+      rw [wrap_eq_src n off (off + j) (by omega) hp.1 (by omega)]
+      simp only [srcPeriodic]; split_ifs <;> first | omega | (congr 1 <;> omega)
+    · simp only [npEdge]; split_ifs <;> first | omega | (congr 1 <;> omega)
+    · simp only [linExtrap]; split_ifs <;> first | omega | (congr 1 <;> omega)
   · intro hmn i hi
-    have := hadm.1
-    exact core_fwd_crop mode n m off c x hmn (by omega) i hi
+    have := hadm.1 (by omega)
+    exact core_fwd_crop mode n m off c x (by omega) (by omega) i hi
+  · intro e i hi
+    subst e
+    exact core_same mode .forward n off c x i hi
 
 /-- **Cropping undoes extension.**  Extending `x` from `n` to `m ≥ n` entries (any mode, any
 accepted offset) and then resizing back to `n` entries with the same offset — in any mode,
@@ -89,16 +100,20 @@ with any padding constant — returns `x`. -/
 theorem C16.crop_extend_id (mode mode' : Mode) (n m off : Nat) (c c' : K) (x r : Nat → K)
     (hnm : n ≤ m) (hr : resize1d mode .forward n m off c x = .ok r) :
     ∃ r', resize1d mode' .forward m n off c' r = .ok r' ∧ ∀ j < n, r' j = x j := by
-  have hint := (C16.resize_intersection mode n m off c x r hr).1 hnm
+  have hint := C16.resize_intersection mode n m off c x r hr
   obtain ⟨hc, -⟩ := (ok_iff ..).1 hr
   have hadm := ((C16.guards_are_documented_limits mode n m off c).1).1 hc
-  have hfit : off + n ≤ m := by have := hadm.1; omega
-  have hadm' : Admissible mode' m n off := ⟨by omega, fun h => by omega⟩
+  have hadm' : Admissible mode' m n off :=
+    ⟨fun hne => by have := hadm.1 (by omega); omega, fun h => by omega⟩
   refine ⟨_, (ok_iff ..).2 ⟨((C16.guards_are_documented_limits mode' m n off c').1).2 hadm', rfl⟩,
     ?_⟩
   intro j hj
-  rw [core_fwd_crop mode' m n off c' r hnm hfit j hj]
-  exact hint j hj
+  rcases Nat.lt_or_eq_of_le hnm with hlt | rfl
+  · have hfit := admissible_fits hadm hlt
+    rw [core_fwd_crop mode' m n off c' r hnm hfit j hj]
+    exact hint.1 hlt j hj
+  · rw [core_same mode' .forward n off c' r j hj]
+    exact hint.2.2 rfl j hj
 
 /-- **Forward and adjoint are transposes of each other** (one axis).  For every linear mode
 (`pad_const = 0`), all lengths `n`, `m` (growing: padding vs. accumulation of the outer parts
@@ -127,15 +142,15 @@ theorem C16.adjoint_transpose_nd (mode : Mode) (sIn sOut offs : List Nat)
       sumBox sIn (fun idx => X idx * resizeAxesRev mode .adjoint (0 : K) 0 sOut sIn offs Y idx) :=
   axes_transpose mode sIn sOut offs [] h X Y
 
-/-- The n-d call is accepted iff every axis is admissible (given consistent lengths). -/
-theorem C16.nd_accepts_iff (mode : Mode) (c : K) :
+/-- The per-axis part of the n-d argument check accepts iff every axis is admissible. -/
+theorem C16.nd_axes_accept_iff (mode : Mode) (c : K) :
     ∀ (sIn sOut offs : List Nat), sIn.length = sOut.length → sIn.length = offs.length →
-      (checkND mode .forward c sIn sOut offs = none ↔ AdmissibleND mode sIn sOut offs)
-  | [], [], [], _, _ => by simp [checkND, AdmissibleND]
+      (checkAxes mode .forward c sIn sOut offs = none ↔ AdmissibleND mode sIn sOut offs)
+  | [], [], [], _, _ => by simp [checkAxes, AdmissibleND]
   | n :: sIn, m :: sOut, off :: offs, h1, h2 => by
-    have ih := C16.nd_accepts_iff mode c sIn sOut offs (by simpa using h1) (by simpa using h2)
+    have ih := C16.nd_axes_accept_iff mode c sIn sOut offs (by simpa using h1) (by simpa using h2)
     have hg := (C16.guards_are_documented_limits mode n m off c).1
-    simp only [checkND, AdmissibleND]
+    simp only [checkAxes, AdmissibleND]
     cases hc : check mode .forward n m off c with
     | none => simp [← hg, hc, ih]
     | some e => simp [← hg, hc]
@@ -143,6 +158,21 @@ theorem C16.nd_accepts_iff (mode : Mode) (c : K) :
   | _ :: _, [], _, h1, _ => by simp at h1
   | [], [], _ :: _, _, h2 => by simp at h2
   | _ :: _, _ :: _, [], _, h2 => by simp at h2
+
+/-- The n-d call (offset range of all axes first, then the per-axis guards, as in the source)
+is accepted iff every axis is admissible (given consistent lengths). -/
+theorem C16.nd_accepts_iff (mode : Mode) (c : K) (sIn sOut offs : List Nat)
+    (h1 : sIn.length = sOut.length) (h2 : sIn.length = offs.length) :
+    checkND mode .forward c sIn sOut offs = none ↔ AdmissibleND mode sIn sOut offs := by
+  have hax := C16.nd_axes_accept_iff mode c sIn sOut offs h1 h2
+  unfold checkND
+  constructor
+  · intro h
+    split_ifs at h
+    exact hax.1 h
+  · intro h
+    rw [offsetsBad_false_of_adm h]
+    simpa using hax.2 h
 
 /-- **Constant slope (`order1`).**  The result continues the two outermost samples of each
 side as an arithmetic progression: all second differences vanish on `[0, off + 1]` and on
